@@ -8,6 +8,7 @@ import SmVerif.Model.SketchParams
 import SmVerif.Model.SketchFeed
 import SmVerif.Model.SketchNames
 import SmVerif.Model.SketchFromfile
+import SmVerif.Model.SketchCompute
 import SmVerif.Model.Proto
 
 namespace Sm.DriverSketch
@@ -194,6 +195,7 @@ def nameOpts (flags : List String) : Option NameOpts :=
     else if f = "cwd" then some { o with out := .cwd }
     else if f = "rand" then some { o with rand := true }
     else if f = "check" then some { o with check := true }
+    else if f = "fromfile" then some o            -- `--from-file LIST`: the same inputs, named in a file
     else none) {}
 
 def namesLine (mode : NameMode) (opts : NameOpts) (k : Nat) (files : List SeqFile) : String :=
@@ -244,6 +246,37 @@ def nativeLine (p : CP) (input : Input) (force : Bool) (seqs : List (List Nat)) 
     s!"{b.ksize}:{b.hf}:{b.num}:{b.maxHash}:{b.seed}:{b2s b.trackAbundance}:MD5\{{d.ksize};{joinNats d.mins}}:{joinNats b.mins}:{ab}/{v.num}:{v.maxHash}:MD5\{{dv.ksize};{joinNats dv.mins}}:{joinNats v.mins}:{abv}"
   "ok " ++ "|".intercalate (fed.map (fun r => one r.1))
 
+/-! ### `sk` / `cmp`: the command line (`sourmash.__main__.main`) of `sketch dna|protein|translate` and of the
+deprecated `compute`: every sketch of every signature written, with the file it landed in -/
+
+/-- sketch every unit with every signature of the factory; `Signature::add_sequence` feeds the sketches
+    of a signature in order and the first error ends the command -/
+def cliLine (mode : NameMode) (opts : NameOpts) (sigs : List (List BT)) (isProt : Bool) (files : List SeqFile)
+    (mergedErr : String) : String :=
+  match planOutputs mode opts.out files with
+  | .error .exit => "err SystemExit"
+  | .error .noDir =>
+    match files.find? (fun f => !f.records.isEmpty) with
+    | some f =>
+      let bad := sigs.flatten.any (fun b =>
+        (feedBT Murmur3.hashNat b (hfOfCode b.hf) (if isProt then .protein else .dna) (!opts.check)
+          (f.records.map Prod.snd)).2 != Seq.Stop.done)
+      if bad then "err SystemExit" else "err FileNotFoundError"
+    | none => "err FileNotFoundError"
+  | .ok outs =>
+    let fed := outs.map (fun pu => (pu, sigs.flatten.map (fun b =>
+      feedBT Murmur3.hashNat b (hfOfCode b.hf) (if isProt then .protein else .dna) (!opts.check) pu.2.records)))
+    if fed.any (fun r => r.2.any (fun x => x.2 != Seq.Stop.done)) then
+      (match mode with | .merge _ => mergedErr | _ => "err SystemExit") else
+    let recs := fed.flatMap (fun r => r.2.map (fun x =>
+      let u := r.1.2
+      let d := x.1.md5sum.2
+      (r.1.1, s!"{hexOfChars r.1.1}|{hexOfChars (u.name.getD [])}|{hexOfChars u.filename}|{showSketch x.1}|MD5\{{d.ksize};{joinNats d.mins}}")))
+    "ok " ++ ";".intercalate ((sortByPath recs).map Prod.snd)
+
+def scaledArg? (t : String) : Option ScaledArg :=
+  if t = "lt1" then some .below1 else if t = "frac" then some .fraction else (nat? t).map ScaledArg.int
+
 /-! ### `fromfile` (`Model/SketchFromfile.lean`) -/
 
 def ffRow? (t : String) : Option FFRow :=
@@ -292,6 +325,22 @@ def fromfileLine (ign : Bool) (ps : List (List Char)) (files : List SeqFile) (ro
       | .error _ => "exit -1"
       | .ok tb => fromfileUnits files tb []
 
+def fromfileOp (ign : String) (rest : List String) : Option String :=
+  let isMark (t : String) : Bool := t = "F" || t = "R" || t = "A"
+  let ps := rest.takeWhile (fun t => !isMark t)
+  let r1 := rest.dropWhile (fun t => !isMark t)
+  let fileToks := r1.takeWhile (· ≠ "R")
+  match r1.dropWhile (· ≠ "R") with
+  | "R" :: r2 =>
+    let rowToks := r2.takeWhile (· ≠ "A")
+    match r2.dropWhile (· ≠ "A") with
+    | "A" :: doneToks =>
+      match bool? ign, ps.mapM decode, parseFiles fileToks, rowToks.mapM ffRow?, doneToks.mapM doneRow? with
+      | some ign, some ps, some files, some rows, some done => some (fromfileLine ign ps files rows done)
+      | _, _, _, _, _ => none
+    | _ => none
+  | _ => none
+
 def step (st : Unit) (line : String) : Unit × String :=
   let bad := (st, "bad-op")
   match words line with
@@ -330,21 +379,50 @@ def step (st : Unit) (line : String) : Unit × String :=
       | some mode, some opts, some k, some files => (st, namesLine mode opts k files)
       | _, _, _, _ => bad
     | [] => bad
-  | "fromfile" :: ign :: "P" :: rest =>
-    let isMark (t : String) : Bool := t = "F" || t = "R" || t = "A"
-    let ps := rest.takeWhile (fun t => !isMark t)
-    let r1 := rest.dropWhile (fun t => !isMark t)
-    let fileToks := r1.takeWhile (· ≠ "R")
-    match r1.dropWhile (· ≠ "R") with
-    | "R" :: r2 =>
-      let rowToks := r2.takeWhile (· ≠ "A")
-      match r2.dropWhile (· ≠ "A") with
-      | "A" :: doneToks =>
-        match bool? ign, ps.mapM decode, parseFiles fileToks, rowToks.mapM ffRow?, doneToks.mapM doneRow? with
-        | some ign, some ps, some files, some rows, some done => (st, fromfileLine ign ps files rows done)
-        | _, _, _, _, _ => bad
-      | _ => bad
-    | _ => bad
+  | "fromfilecli" :: ign :: "P" :: rest => (st, (fromfileOp ign rest).getD "bad-op")
+  | "fromfile" :: ign :: "P" :: rest => (st, (fromfileOp ign rest).getD "bad-op")
+  | "sk" :: sub :: dm :: mode :: "P" :: rest =>
+    -- sk <dna|protein|translate> <defmol> <mode+flags> P <hexp>.. F <files>..
+    let ps := rest.takeWhile (· ≠ "F")
+    match mol? dm, mode.splitOn "+", ps.mapM decode, parseFiles (rest.dropWhile (· ≠ "F")) with
+    | some (some dm), m :: flags, some ps, some files =>
+      match nameMode? m, nameOpts flags with
+      | some nm, some opts =>
+        match factory ps (some dm) false with
+        | .error e =>
+          -- a ValueError while creating the factory is reported and the command exits; anything else escapes
+          (st, if e.cls = .value then "err SystemExit" else "err " ++ e.cls.name)
+        | .ok sigs => (st, cliLine nm opts sigs (sub = "protein") files "err ValueError")
+      | _, _ => bad
+    | _, _, _, _ => bad
+  | "cmp" :: ks :: dna :: pr :: dy :: hp :: num :: sc :: tr :: seed :: inprot :: mode :: rest =>
+    match (ks.splitOn ",").mapM nat?, [dna, pr, dy, hp, tr, inprot].mapM bool?, nats? [num, seed], scaledArg? sc,
+          mode.splitOn "+", parseFiles rest with
+    | some ks, some [dna, pr, dy, hp, tr, inprot], some [num, seed], some sc, m :: flags, some files =>
+      match nameMode? m, nameOpts flags with
+      | some nm, some opts =>
+        let hasO : Bool := match opts.out with | .single => true | _ => false
+        let hasD : Bool := match opts.out with | .dir _ => true | _ => false
+        let isM : Bool := match nm with | .merge _ => true | _ => false
+        let a : ComputeArgs :=
+          { ksizes := ks
+            dna := dna
+            protein := pr
+            dayhoff := dy
+            hp := hp
+            numHashes := num
+            scaled := sc
+            track := tr
+            seed := seed
+            inputIsProtein := inprot
+            hasOutput := hasO
+            hasOutputDir := hasD
+            merge := isM }
+        match computeParams a with
+        | .error _ => (st, "err SystemExit")
+        | .ok c => (st, cliLine nm opts [buildTemplate c] inprot files "err ValueError")
+      | _, _ => bad
+    | _, _, _, _, _, _ => bad
   | ["setname", fname, name] =>
     match decode fname, (if name = "none" then some none else (decode name).map some) with
     | some fname, some name => (st, s!"ok {hexOfChars (name.getD [])}|{hexOfChars (recordedFilename fname)}")
